@@ -183,6 +183,29 @@ Example C10_nonvacuous_frame :
   = [FNone; FCols (Ok [[1; 7]]%Z)].
 Proof. repeat split; reflexivity. Qed.
 
+(* ---- the subscript entry point df[...] (round 6) ---- *)
+
+(* df[cols] is collect(cols, limit=None): same result, same exception, same effect on the frame - for every request. *)
+Theorem C10_getitem_is_collect :
+  forall (A : Type) (s : store A) (cols : list Z),
+  step s (OpGetitem cols) = step s (OpCollect cols None).
+Proof. exact getitem_is_collect. Qed.
+Print Assumptions C10_getitem_is_collect.
+
+(* ... in particular a position outside 0..width-1 - df[-1] included - never yields a column. *)
+Theorem C10_getitem_outside_never_ok :
+  forall (A : Type) (w : nat) (k : backing) (rows : list (list A)) (cols : list Z),
+  rectangular A w rows -> rows <> [] ->
+  (exists c, In c cols /\ ((c < 0)%Z \/ (Z.of_nat w <= c)%Z)) ->
+  forall res, snd (step (frame_init k (map RTuple rows)) (OpGetitem cols)) <> FCols (Ok res).
+Proof. exact getitem_outside_never_ok. Qed.
+Print Assumptions C10_getitem_outside_never_ok.
+
+Example C10_nonvacuous_getitem :
+  snd (step (frame_init KList (map RTuple [[1; 2]; [3; 4]]%Z)) (OpGetitem [(-1)%Z])) = FCols (Raise IndexError) /\
+  snd (step (frame_init KList (map RTuple [[1; 2]; [3; 4]]%Z)) (OpGetitem [1%Z])) = FCols (Ok [[2; 4]]%Z).
+Proof. split; reflexivity. Qed.
+
 (* ---- argument conversion of DataFrame.collect (round 3) ----
    [df_collect_conv] is DataFrame.collect with the conversions Python performs on the way in: the index
    vector becomes an int32 array (OverflowError outside the int32 range - no wrap-around), the limit a C int. *)
@@ -266,6 +289,28 @@ Theorem C10_session_new :
     = Some (OFrame names (frame_init k rows)).
 Proof. exact sess_new. Qed.
 Print Assumptions C10_session_new.
+
+(* Round 6 - objects derived from other objects: copy.deepcopy(object i) starts as the value object i has at that
+   moment, frame i .head(n) as a list-backed frame of the first n rows; by C10_session_local they are independent
+   from then on (what is done to the copy does not reach the original and vice versa; head only materialises its source). *)
+Theorem C10_session_derived :
+  forall (A : Type) (keq : A -> A -> bool) (none : A) (st : list (obj A)) (i n : nat),
+  (forall o, nth_error st i = Some o ->
+     nth_error (fst (sess_step keq none st (NewCopy i))) (length st) = Some o) /\
+  (forall names s, nth_error st i = Some (OFrame names s) ->
+     nth_error (fst (sess_step keq none st (NewHead i n))) (length st)
+       = Some (OFrame names (SEager (firstn n (contents s))))).
+Proof. exact sess_new_derived. Qed.
+Print Assumptions C10_session_derived.
+
+Example C10_nonvacuous_derived :   (* head of the whole frame, then append to it: the original keeps its two rows *)
+  sess_run Z.eqb 0%Z []
+    [NewFrame KTuple [10; 11]%Z [RTuple [1; 2]%Z; RTuple [3; 4]%Z]; NewHead 0 5; NewCopy 0;
+     On 1 (AFrame (OpAppend [5; 6]%Z)); On 2 (AFrame (OpAppend [7; 8]%Z)); On 2 (AFrame (OpAppend [9; 9]%Z));
+     On 0 (AFrame OpRowcount); On 1 (AFrame OpRowcount); On 2 (AFrame (OpGetitem [0%Z]))]
+  = [SNone; SNone; SNone; SFrameOut FNone; SFrameOut FNone; SFrameOut FNone;
+     SFrameOut (FCount 2); SFrameOut (FCount 3); SFrameOut (FCols (Ok [[1; 3; 7; 9]]%Z))].
+Proof. reflexivity. Qed.
 
 (* What an ordinary row class makes of a dictionary (and so what DataFrame.append({...}) stores): one
    cell per field of THAT class, in order - the value under the first equal key, else None. *)
